@@ -47,6 +47,15 @@ def run(tier, seed, replay=None):
                             ("f([m]...)", "func f(x) { x.k = 9 }", "a map passed through a spread")):
         shared.append(("%s\nm = {\"k\": 1}\n%s\nm.k" % (decl, call), "i:9", why + " is the caller's map"))
     detached += shared
+    # an ill-typed operand yields an error and leaves the container unchanged - also the part of its storage it shares with a view
+    detached += [
+        ("a = make([]int64, 3); b = a[0:1]; r = \"ok\"; try { b += [7, \"x\"] } catch e { r = \"E\" }; [r, a, b]", "[s:45,other:[]int64:[0 0 0],other:[]int64:[0]]",
+         "a typed append that fails on a later element has appended none: the source of the view is untouched"),
+        ("a = make([]int64, 3); b = a[0:1]; r = (b + [7, \"x\"]) ?? \"E\"; [r, a]", "[s:45,other:[]int64:[0 0 0]]", "the same with +"),
+        ("a = make([]string, 3); b = a[0:1]; try { b += [\"p\", 5, [1]] } catch e { }; a", "other:[]string:[  ]", "a failing append to a view of a []string"),
+        ("a = make([][]int64, 2); b = a[0:1]; try { b += [[1], [\"x\"]] } catch e { }; [len(a[0]), len(a[1])]", "[i:0,i:0]", "a failing append of lists to a view of a [][]int64"),
+        ("a = make([]int64, 3); b = a[0:1]; b += [7, 8.9]; [a, b]", "[other:[]int64:[0 7 8],other:[]int64:[0 7 8]]", "a typed append that succeeds writes through the shared capacity as Go's append does"),
+    ]
     expectations = [{"src": src, "field": "result", "want": want, "why": why} for src, want, why in detached]
     expectations += [{"src": p["src"], "field": "trace", "want": p["want"],
                      "why": "the observations of a container history equal those of the same operations on Go values"} for p in data["untyped"]]
